@@ -441,7 +441,7 @@ def hypothesis_monitor(ctx, worlds, results):
 
 
 def run(ctx):
-    built, worlds, results = common_prelude(ctx, ctx.pid, 80, 1200)
+    built, worlds, results = common_prelude(ctx, ctx.pid.split("_")[0] + "_ilp", 80, 1200)
     replay_corpus(ctx, "C10_ilp", "ILP-H1", lambda w, r: "error" in r,
                   "schedule() raises for a SCHEDULED task with a strategy that does not fit on some worker "
                   "(ilp_scheduler.py:248-255)", fixed=True)
